@@ -172,7 +172,7 @@ func main() {
 	N2, N3 := vlib.Pick(c, 12, 24), vlib.Pick(c, 5, 10)
 	var mu sync.Mutex
 	var fails []failure
-	var evals, negShapes, built, rejected int64
+	var evals, negShapes, built, rejected, emptySolids int64
 	roots := vlib.NewCounter()
 	add := func(f failure) {
 		mu.Lock()
@@ -190,8 +190,27 @@ func main() {
 		roots.Add(nd.Root, 1)
 		bb := s.BoundingBox()
 		desc := map[string]any{"shape": nd.Name, "dim": 2, "box": bb}
-		if !fin(bb.Min.X, bb.Min.Y, bb.Max.X, bb.Max.Y) || bb.Min.X > bb.Max.X || bb.Min.Y > bb.Max.Y {
-			add(failure{nd.OperandExact, nd.Name, nd.Root, fmt.Sprintf("bounding box %v is not finite and ordered", bb), math.Inf(1), desc})
+		if !fin(bb.Min.X, bb.Min.Y, bb.Max.X, bb.Max.Y) {
+			add(failure{nd.OperandExact, nd.Name, nd.Root, fmt.Sprintf("bounding box %v is not finite", bb), math.Inf(1), desc})
+			return
+		}
+		if bb.Min.X > bb.Max.X || bb.Min.Y > bb.Max.Y {
+			// an inverted box encloses nothing: that is right exactly when the solid is empty (e.g. a shape shrunk
+			// by more than its thickness); probe the region around the swapped box for material
+			sb := sdf.Box2{Min: bb.Min.Min(bb.Max), Max: bb.Min.Max(bb.Max)}
+			var wp *v2.Vec
+			for _, x := range axisSamples(sb.Min.X, sb.Max.X, N2) {
+				for _, y := range axisSamples(sb.Min.Y, sb.Max.Y, N2) {
+					if p := (v2.Vec{X: x, Y: y}); wp == nil && s.Evaluate(p) < -1e-9 {
+						wp = &p
+					}
+				}
+			}
+			if wp != nil {
+				add(failure{nd.OperandExact, nd.Name, nd.Root, fmt.Sprintf("bounding box %v is inverted (encloses nothing) although Evaluate%v = %g < 0", bb, *wp, s.Evaluate(*wp)), math.Inf(1), desc})
+			} else {
+				atomic.AddInt64(&emptySolids, 1)
+			}
 			return
 		}
 		tol := 1e-9 * (1 + bb.Max.Sub(bb.Min).Length())
@@ -231,8 +250,27 @@ func main() {
 		roots.Add(nd.Root, 1)
 		bb := s.BoundingBox()
 		desc := map[string]any{"shape": nd.Name, "dim": 3, "box": bb}
-		if !fin(bb.Min.X, bb.Min.Y, bb.Min.Z, bb.Max.X, bb.Max.Y, bb.Max.Z) || bb.Min.X > bb.Max.X || bb.Min.Y > bb.Max.Y || bb.Min.Z > bb.Max.Z {
-			add(failure{nd.OperandExact, nd.Name, nd.Root, fmt.Sprintf("bounding box %v is not finite and ordered", bb), math.Inf(1), desc})
+		if !fin(bb.Min.X, bb.Min.Y, bb.Min.Z, bb.Max.X, bb.Max.Y, bb.Max.Z) {
+			add(failure{nd.OperandExact, nd.Name, nd.Root, fmt.Sprintf("bounding box %v is not finite", bb), math.Inf(1), desc})
+			return
+		}
+		if bb.Min.X > bb.Max.X || bb.Min.Y > bb.Max.Y || bb.Min.Z > bb.Max.Z {
+			sb := sdf.Box3{Min: bb.Min.Min(bb.Max), Max: bb.Min.Max(bb.Max)}
+			var wp *v3.Vec
+			for _, x := range axisSamples(sb.Min.X, sb.Max.X, N3) {
+				for _, y := range axisSamples(sb.Min.Y, sb.Max.Y, N3) {
+					for _, z := range axisSamples(sb.Min.Z, sb.Max.Z, N3) {
+						if p := (v3.Vec{X: x, Y: y, Z: z}); wp == nil && s.Evaluate(p) < -1e-9 {
+							wp = &p
+						}
+					}
+				}
+			}
+			if wp != nil {
+				add(failure{nd.OperandExact, nd.Name, nd.Root, fmt.Sprintf("bounding box %v is inverted (encloses nothing) although Evaluate%v = %g < 0", bb, *wp, s.Evaluate(*wp)), math.Inf(1), desc})
+			} else {
+				atomic.AddInt64(&emptySolids, 1)
+			}
 			return
 		}
 		tol := 1e-9 * (1 + bb.Max.Sub(bb.Min).Length())
@@ -267,6 +305,18 @@ func main() {
 			add(failure{nd.OperandExact, nd.Name, nd.Root, fmt.Sprintf("Evaluate%v = %g < 0 although the point is %g outside the bounding box %v", wp, s.Evaluate(wp), worst, bb), worst, desc})
 		}
 	})
+	// witness for the listed finding about imported meshes (their own probe region does not reach far enough)
+	for _, nd := range n3 {
+		if nd.Root == "obj.ImportSTL" && strings.HasPrefix(nd.Name, "obj.ImportSTL(") {
+			if s, err := nd.Build(); err == nil {
+				p := v3.Vec{X: 12, Y: 12, Z: -12}
+				if v := s.Evaluate(p); v < -1e-9 && !s.BoundingBox().Contains(p) {
+					c.Violation("bbox-misses-solid|obj.ImportSTL|far-field-sign-of-an-imported-mesh", fmt.Sprintf("%s: Evaluate%v = %g < 0 far outside the bounding box %v", nd.Name, p, v, s.BoundingBox()), map[string]any{"shape": nd.Name, "point": p})
+				}
+			}
+			break
+		}
+	}
 	// attribute every failure to the innermost failing sub-expression: a parent whose operand already
 	// fails on its own is a consequence, not a new class
 	sort.Slice(fails, func(i, j int) bool { return len(fails[i].name) < len(fails[j].name) })
@@ -299,7 +349,18 @@ func main() {
 			// scaled extrusions ...): the box of an offset is only right for true distance fields
 			cls = "operand-not-a-true-distance-field"
 		}
-		c.Violation("bbox-misses-solid|"+f.root+"|"+cls, f.name+": "+f.what, f.desc)
+		if f.root == "ExtrudeRounded3D" && !f.opExact {
+			// the rounding is an offset of the profile's field: same cause
+			cls = "operand-not-a-true-distance-field"
+		}
+		root := f.root
+		if strings.Contains(f.name, "obj.ImportSTL(") && f.root != "obj.ImportSTL" {
+			// an imported triangle mesh takes its sign from the nearest triangles: far from the mesh (where copies,
+			// arrays and re-orientations of it are probed) the sign is unreliable - the documented limitation of the
+			// mesh wrapper (see the ImportTriMesh finding), attributed to the leaf, not to the operator above it
+			root, cls = "obj.ImportSTL", "far-field-sign-of-an-imported-mesh"
+		}
+		c.Violation("bbox-misses-solid|"+root+"|"+cls, f.name+": "+f.what, f.desc)
 	}
 	c.Note("%d failing shapes, %d of them only because an operand fails already", len(fails), inherited)
 	c.Guard("shapes with material (>= 1 strictly negative probe point)", negShapes > int64(float64(built)*0.9), fmt.Sprintf("%d of %d", negShapes, built))
@@ -310,7 +371,7 @@ func main() {
 		Samples:     []any{n2[0].Name, n2[len(n2)/2].Name, n3[len(n3)/3].Name, n3[len(n3)-1].Name, map[string]any{"nodes_2d": len(n2), "nodes_3d": len(n3), "rejected_by_constructor": rejected}},
 		Exhaustive:  true,
 		Bounds:      map[string]any{"tree_depth": 3, "lattice_2d": fmt.Sprintf("(2*%d+6)^2 points: 2N per axis over the enlarged box (irrationally offset) + the box planes +-1e-6 and +-3%% of the margin", N2), "lattice_3d": fmt.Sprintf("(2*%d+6)^3 points: 2N per axis over the enlarged box (irrationally offset) + the box planes +-1e-6 and +-3%% of the margin", N3), "region": "twice the reported box, at least +-1"},
-		Extra:       map[string]any{"distinct_root_constructors": roots.Len(), "rejected_by_constructor": rejected},
+		Extra:       map[string]any{"distinct_root_constructors": roots.Len(), "rejected_by_constructor": rejected, "empty_solids_with_inverted_box": emptySolids},
 		Assumptions: []string{"space is sampled on a lattice and parameters on a menu", "Gyroid3D is excluded (documented as unbounded)", "a violation is attributed to the innermost failing sub-expression"},
 	})
 	_ = sdf.DtoR
